@@ -1,5 +1,5 @@
 import VelaVerif.Lemmas.TfliteRoundtrip
-import VelaVerif.Model.TfliteDemo
+import VelaVerif.Model.TfliteDemo2
 /-!
 # C11 — the writer / reader round trip, assembled
 
@@ -107,32 +107,6 @@ theorem normal_form_subgraph_without_surgery (ts : List TensorD) (ci : OpInfo) (
 
 /-! ## non-vacuity: a description in the domain -/
 
-/-- a CPU subgraph with the Ethos-U operator, an elementwise operator with a constant operand, a third-party custom operator, an
-unused original input, a repeated output entry, arena tensors, a scratch tensor, a graph metadata entry; and an NPU subgraph that
-is not written -/
-def demo2 : Desc :=
-  { tensors :=
-      [ t "x" [1, 4, 4, 2] "int8" (some q8) none 3 (some 0),                          -- 0: input
-        t "c" [2] "int8" (some q8) (some (.raw [1, 2])) 2 none,                       -- 1: constant
-        t "y" [1, 4, 4, 2] "int8" (some q8) none 3 (some 32),                         -- 2: NPU result
-        t "z" [1, 4, 4, 2] "int8" none none 3 (some 64),                              -- 3: Add result
-        t "unused" [1] "float32" none none 0 none,                                    -- 4: input nobody reads
-        t "a_scratch" [128] "uint8" none none 3 none none 3,                          -- 5: the scratch tensor
-        t "v" [1, 4, 4, 2] "quint8" none none 3 (some 96) ],                          -- 6: custom operator result
-    subgraphs :=
-      [ { name := bytes "main", cpu := true,
-          ops := [startup "Placeholder" 0, startup "Const" 1,
-                  { type := "CustomNpuOp", customCode := [], version := 1, inputs := [some 0, some 5], outputs := [some 2],
-                    intermediates := [], payload := { optType := 0, opts := none, custom := some "01", customFormat := 0 } },
-                  { type := "Add", customCode := [], version := 2, inputs := [some 2, some 1], outputs := [some 3],
-                    intermediates := [], payload := { optType := 11, opts := some "~0", custom := none, customFormat := 0 } },
-                  { custom 1 3 6 with inputs := [some 3, some 5] }],
-          originalInputs := [0, 4], inputTensors := [0], outputTensors := [6, 3], originalOutputPositions := some [0, 1, 0],
-          virtualOutputs := [] },
-        npu ],
-    metadata := [{ nameIsBytes := false, name := bytes "note", data := some (.raw []) }],
-    version := bytes "3.10.0" }
-
 example : RoundtripDomain demo2 := by decide +kernel
 
 /-- on `demo2` writing succeeds and both sides of the theorem evaluate to the same description -/
@@ -161,14 +135,6 @@ example : (normalise demo2).toOption.map (fun nd => nd.subgraphs.map fun s => (s
 example : (normalise demo2).toOption.map (fun nd => nd.metadata.map fun md => (md.nameIsBytes, md.name, md.data.isSome))
     = some [(true, bytes "note", false), (true, velaVersionName, true), (true, omaName, true)] := by decide +kernel
 
-/-- `demo2` followed by a convolution whose weights are computed (not constant): still no surgery -/
-def demo4 : Desc :=
-  { demo2 with
-    tensors := demo2.tensors ++ [t "wdyn" [2, 1, 1, 2] "int8" (some q8) none 3 (some 128), t "u" [1, 4, 4, 2] "int8" (some q8) none 3 (some 160)]
-    subgraphs := demo2.subgraphs.map fun s => if s.cpu then
-      { s with ops := s.ops ++ [startup "Placeholder" 7, { conv with inputs := [some 3, some 7, none], outputs := [some 8] }]
-               originalInputs := [0, 4, 7], outputTensors := [6, 8] } else s }
-
 example : RoundtripDomain demo4 ∧
     ((write demo4).toOption.bind fun m => (Reader.read demo4.version m).toOption) = (normalise demo4).toOption ∧
     (normalise demo4).toOption.isSome = true := by decide +kernel
@@ -191,21 +157,6 @@ example : (normalise demo).toOption.map (fun nd => nd.subgraphs.flatMap fun s =>
             ("Const", ([], [some 7])), ("Conv2DBias", ([some 4, some 7, none], [some 5])), ("Custom", ([some 5, some 0], [some 6])),
             ("Custom", ([some 6, some 0], [some 2]))] := by decide +kernel
 
-/-- an AssignVariable operator with its virtual output: the writer cuts the virtual output off, the reader re-creates it -/
-def demo3 : Desc :=
-  { tensors :=
-      [ t "x" [1, 2] "int8" none none 3 (some 0),
-        t "res" [] "resource" none none 0 none,
-        t "AssignVariable_0" [] "int8" none none 0 none none 7 ],
-    subgraphs :=
-      [ { name := bytes "main", cpu := true,
-          ops := [startup "Placeholder" 0, startup "Placeholder" 1,
-                  { type := "AssignVariable", customCode := [], version := 1, inputs := [some 1, some 0], outputs := [some 2],
-                    intermediates := [], payload := { optType := 0, opts := none, custom := none, customFormat := 0 } }],
-          originalInputs := [0, 1], inputTensors := [0, 1], outputTensors := [2], originalOutputPositions := some [],
-          virtualOutputs := [(2, some 2)] } ],
-    metadata := [], version := bytes "3.10.0" }
-
 example : roundtripDomain demo3 = true ∧ noSurgery demo3 = false ∧
     ((write demo3).toOption.bind fun m => (Reader.read demo3.version m).toOption) = (normalise demo3).toOption ∧
     (normalise demo3).toOption.isSome = true := by decide +kernel
@@ -216,38 +167,26 @@ example : (normalise demo3).toOption.map (fun nd => nd.subgraphs.map fun s => (s
 
 /-! ## the domain clauses are needed -/
 
-def errorOf (r : Except String Desc) : String :=
-  match r with
-  | .error e => e
-  | .ok _ => ""
-
-/-- `demo2` with three bytes of data for the two-element int8 constant -/
-def badData : Desc :=
-  { demo2 with tensors := demo2.tensors.set 1 (t "c" [2] "int8" (some q8) (some (.raw [1, 2, 3])) 2 none) }
-
 /-- **roundtrip_dataOk_witness.** Outside `dataOk` the writer produces a file the reader rejects (ValueError of `reshape`; the
 normal form fails the same way): the clause cannot be dropped. -/
-theorem roundtrip_dataOk_witness : ¬ RoundtripDomain badData ∧
+theorem roundtrip_dataOk_witness : ¬ RoundtripDomain badData ∧ noSurgery badData = true ∧
     (write badData).toOption.map (fun m => errorOf (Reader.read badData.version m)) = some "value" ∧
     errorOf (normalise badData) = "value" := by decide +kernel
 
-/-- `demo2` with the NPU operator's result listed as an original input -/
-def badInput : Desc :=
-  { demo2 with subgraphs := demo2.subgraphs.map fun s => if s.cpu then { s with originalInputs := [0, 2] } else s }
-
 /-- **roundtrip_inputsNotProduced_witness.** An original input that a written operator produces: the writer writes it, the reader
 stops with `Tensor.error` ("vela-error"). -/
-theorem roundtrip_inputsNotProduced_witness : ¬ RoundtripDomain badInput ∧
+theorem roundtrip_inputsNotProduced_witness : ¬ RoundtripDomain badInput ∧ noSurgery badInput = true ∧
     (write badInput).toOption.map (fun m => errorOf (Reader.read badInput.version m)) = some "vela-error" ∧
     errorOf (normalise badInput) = "vela-error" := by decide +kernel
 
+/-- **roundtrip_noSurgery_witness.** With a constant-weight convolution (`Demo.demo`) the reader's checks pass but the closed form
+of `read_write_roundtrip` fails: the graph read back has one tensor more than the file (the reshaped clone). -/
+theorem roundtrip_noSurgery_witness : ¬ RoundtripDomain demo ∧ roundtripDomain demo = true ∧
+    (write demo).toOption.map (fun m => (m.subgraphs.map fun s => s.tensors.length).sum) = some 7 ∧
+    ((write demo).toOption.bind fun m => (Reader.read demo.version m).toOption).map (·.tensors.length) = some 8 := by decide +kernel
+
 /-- with surgery the equation can be an equation between failures of the reader's cloning step: `demo` with
 two-dimensional constant convolution weights — writing succeeds, reading and normalising both fail with "index" -/
-def badWeightTensors : List TensorD :=
-  (demo.tensors.set 1 (t "w" [2, 2] "int8" (some q8) (some (.raw [1, 2, 3, 4])) 2 none)).set 2
-    (t "w_reshape" [2, 2] "int8" (some q8) (some (.digest 4 "clone")) 1 none (some 1))
-def badWeights : Desc := { demo with tensors := badWeightTensors }
-
 example : roundtripDomain badWeights = true ∧
     (write badWeights).toOption.map (fun m => errorOf (Reader.read badWeights.version m)) = some "index" ∧
     errorOf (normalise badWeights) = "index" := by decide +kernel
